@@ -55,7 +55,9 @@ TOKENS = [
 ]
 # numeric literals are encoded as 1000 + value mod 9000 so that changed bounds show up
 NUM = re.compile(r"\b(0x[0-9a-fA-F_]+|0b[01_]+|\d[\d_]*)(?:_?(?:u8|i8|u16|i16|u32|i32|u64|i64|u128|i128|usize|isize))?\b")
-MASTER = re.compile("|".join(f"(?P<t{c}>{p})" for c, p in TOKENS) + "|(?P<num>" + NUM.pattern + ")")
+# macro invocations / definitions by name (forwarders of the operand forms, impl generators): code 200 + crc32(name) % 700
+MACRO = re.compile(r"\b(?:forward_\w+|impl_\w+|macro_rules)\s*!")
+MASTER = re.compile("(?P<mac>" + MACRO.pattern + ")|" + "|".join(f"(?P<t{c}>{p})" for c, p in TOKENS) + "|(?P<num>" + NUM.pattern + ")")
 
 
 def strip_tests_and_comments(src):
@@ -94,7 +96,11 @@ def skeleton(src):
     txt = strip_tests_and_comments(src)
     codes = []
     for m in MASTER.finditer(txt):
-        if m.lastgroup == "num" or m.group("num"):
+        if m.group("mac"):
+            import zlib
+            name = re.sub(r"\s*!$", "", m.group("mac"))
+            codes.append(200 + zlib.crc32(name.encode()) % 700)
+        elif m.lastgroup == "num" or m.group("num"):
             s = m.group("num")
             s2 = re.sub(r"_?(u8|i8|u16|i16|u32|i32|u64|i64|u128|i128|usize|isize)$", "", s).replace("_", "")
             try:
